@@ -10,3 +10,8 @@ claim("C02",
       "Each case builds a ring state with the pointer anywhere and applies 1-4 (thorough: up to 8) select/insert operations with scalar, per-element tensor and tensor+D times drawn from strata (exact grid, +-tol/2, +-2tol, quarter/half/arbitrary fractions, both range limits, outside), all 6 shipped interpolations and 8 extrapolations, tolerances 0..0.6dt, offsets 0..3, dt incl. non-representable 1.3/0.1/0.7. Oracle: documented grid predicate on exact rationals -> stored sample or interpolation of (older, newer, elapsed); insert writes exactly the addressed slots (all other slots bit-identical); out-of-range raises ValueError; insert->select round trip for matching pairs. Bounded random exploration.",
       "Trusts pbt/models/timeidx.py and ring.py. Elements within 8 ulp of the tolerance boundary / exactly half a step for nearest are counted ambiguous and skipped. Float storage only.",
       "DESIGN.md section 5, C02")
+claim("C13",
+      "model-based property testing: generated resize histories vs ring model + exhaustive (dt,duration,inclusive) size grid + generated reconstrain sequences vs a constraint-bookkeeping model",
+      "temporal: records in generated ring states (any pointer/fill, 6 storage kinds incl. uninitialised) receive sequences of dt/duration/inclusive assignments interleaved with pushes and pointer moves; after each, recordsz equals the documented formula (and a freshly constructed record's size), read(k) is unchanged for k <= min(old,new) and zero beyond, uninitialised storage never raises. sizegrid: all 1860 (dt,duration) multiples of 0.1 up to 3.0 x inclusive, enumerated. constraints: generated add/edit/remove/assign sequences on ShapedTensor and RecordTensor (strict/non-strict, +/- dims, live on/off) against a bookkeeping model: reported valid => constraints hold, refused add has no side effects, removal never alters data, edits keep the tail / prepend zeros. Bounded exploration.",
+      "Size formula accepted in exact-rational or float evaluation where they differ (counted ambiguous). Constraint dims for records restricted to observation dims.",
+      "DESIGN.md section 5, C13")
